@@ -60,17 +60,26 @@ Theorem C04_quantile_partial : forall hb w p,
 Proof. exact choose_quantile. Qed.
 Print Assumptions C04_quantile_partial.
 
+(* every committee size and total stake, also committee > total: the quantile
+   of Binomial(stake, min(committee/total, 1)) *)
+Theorem C04_quantile_any_committee_partial : forall hb w p,
+  0 <= hb <= max_hash -> 0 <= w -> (0 < p)%Q ->
+  exists j, choose hb w p = Some j /\
+            is_quantile (bern (Z.to_nat w) (clamp_p p)) (target_of hb) w j.
+Proof. exact choose_quantile_clamped. Qed.
+Print Assumptions C04_quantile_any_committee_partial.
+
 (* the quantile is unique: whoever recomputes it gets the same seat count *)
 Theorem C04_quantile_unique : forall F t n j j',
   is_quantile F t n j -> is_quantile F t n j' -> j = j'.
 Proof. exact is_quantile_unique. Qed.
 Print Assumptions C04_quantile_unique.
 
-(* 0 <= seats <= stake whenever choose returns, for every p ... *)
-Theorem C04_seats_in_range : forall hb w p j,
-  0 <= w -> choose hb w p = Some j -> 0 <= j <= w.
-Proof. exact choose_range. Qed.
-Print Assumptions C04_seats_in_range.
+(* always between 0 and the stake: every hash, stake, committee size, total *)
+Theorem C04_seats_total_in_range : forall hb w p, 0 <= w ->
+  exists j, choose hb w p = Some j /\ 0 <= j <= w.
+Proof. exact choose_total. Qed.
+Print Assumptions C04_seats_total_in_range.
 
 (* ... and whatever the distribution kernel computes (so also for the float64
    kernel of the implementation, as long as it returns) *)
@@ -79,46 +88,30 @@ Theorem C04_seats_in_range_any_kernel : forall cdf hb w p, 0 <= w ->
 Proof. exact choose_with_range. Qed.
 Print Assumptions C04_seats_in_range_any_kernel.
 
-(* ---- the finding: committee size > total stake ----------------------------- *)
-(* choose panics exactly here *)
-Theorem C04_panics_iff : forall hb w p,
-  choose hb w p = None <->
+(* ---- record of the finding fixed by 839997b: committee > total stake ------- *)
+(* the function before the repair panicked exactly here *)
+Theorem C04_unrepaired_panics_iff : forall hb w p,
+  choose_unrepaired hb w p = None <->
   (hb <> max_hash /\ 1 <= hb /\ 1 <= w /\ ((p < 0)%Q \/ (1 < p)%Q)).
-Proof. exact choose_none_iff. Qed.
-Print Assumptions C04_panics_iff.
+Proof. exact unrepaired_none_iff. Qed.
+Print Assumptions C04_unrepaired_panics_iff.
 
-(* "always between 0 and its stake, for every committee size and total stake"
-   is false for the code as it stands (hash 1, stake 1, committee 2, total 1) *)
-Theorem C04_total_refuted : ~ C04_total_full.
-Proof. exact total_refuted. Qed.
-Print Assumptions C04_total_refuted.
+(* so "always between 0 and its stake, for every committee size and total
+   stake" was false for it (hash 1, stake 1, committee 2, total 1) ... *)
+Theorem C04_unrepaired_total_refuted : ~ total_for choose_unrepaired.
+Proof. exact unrepaired_total_refuted. Qed.
+Print Assumptions C04_unrepaired_total_refuted.
 
-(* and true outside the finding class *)
-Theorem C04_total_holds_outside : forall hb w p,
-  ~ committee_exceeds_total p -> 0 <= hb <= max_hash -> 0 <= w -> (0 <= p)%Q ->
-  exists j, choose hb w p = Some j /\ 0 <= j <= w.
-Proof. exact total_holds_outside. Qed.
-Print Assumptions C04_total_holds_outside.
-
-(* after the proposed repair (clamp committee/total at 1): total, in range, the
-   quantile for min(p,1), unchanged wherever the old code returned *)
-Theorem C04_repaired_total : forall hb w p, 0 <= w ->
-  exists j, choose_repaired hb w p = Some j /\ 0 <= j <= w.
+(* ... holds for the code as it is now ... *)
+Theorem C04_total : total_for choose.
 Proof. exact repaired_total. Qed.
-Print Assumptions C04_repaired_total.
+Print Assumptions C04_total.
 
-Theorem C04_repaired_quantile_partial : forall hb w p,
-  0 <= hb <= max_hash -> 0 <= w -> (0 < p)%Q ->
-  exists j, choose_repaired hb w p = Some j /\
-            is_quantile (bern (Z.to_nat w) (if Qlt_bool 1 p then 1%Q else p))
-                        (target_of hb) w j.
-Proof. exact repaired_quantile. Qed.
-Print Assumptions C04_repaired_quantile_partial.
-
-Theorem C04_repaired_agrees : forall hb w p, (0 <= p)%Q -> (p <= 1)%Q ->
-  choose_repaired hb w p = choose hb w p.
-Proof. exact repaired_agrees. Qed.
-Print Assumptions C04_repaired_agrees.
+(* ... and the repair changed nothing where the old function returned *)
+Theorem C04_repair_agrees : forall hb w p, (0 <= p)%Q -> (p <= 1)%Q ->
+  choose hb w p = choose_unrepaired hb w p.
+Proof. exact repair_agrees. Qed.
+Print Assumptions C04_repair_agrees.
 
 (* ---- credentials ------------------------------------------------------------ *)
 (* (seed, step, round index) -> 40 bytes is injective *)
@@ -231,10 +224,10 @@ Example C04_nonvacuous_quantile :
 Proof. vm_compute. repeat split; reflexivity. Qed.
 Print Assumptions C04_nonvacuous_quantile.
 
-(* the finding's witness, and the repaired function on it *)
+(* the finding's witness: before and after the repair *)
 Example C04_nonvacuous_finding :
-  choose 1 1 (2 # 1) = None /\ choose_repaired 1 1 (2 # 1) = Some 1 /\
-  choose (2 ^ 255) 10 (26 # 15) = None /\ choose_repaired (2 ^ 255) 10 (26 # 15) = Some 10.
+  choose_unrepaired 1 1 (2 # 1) = None /\ choose 1 1 (2 # 1) = Some 1 /\
+  choose_unrepaired (2 ^ 255) 10 (26 # 15) = None /\ choose (2 ^ 255) 10 (26 # 15) = Some 10.
 Proof. vm_compute. repeat split; reflexivity. Qed.
 Print Assumptions C04_nonvacuous_finding.
 
